@@ -264,3 +264,4 @@ def _count(doc, prefixes, sites, default):
     for buri, recs in bundles:
         records_xml(recs, XNamer(namer.prefixes, namer.default), sites, "xsd", "")
     sites.on("prov-other")
+    sites.on("shadowed-root-prefix")
